@@ -1026,7 +1026,8 @@ func (g *gm) declared(name string) bool {
 }
 
 // gmForeign: per unit, the receiver fields whose methods belong to other types.
-var gmForeign = map[string]map[string]bool{"GoAuthz": {"metadata": true, "cursors": true}, "GoFSM": {"metadata": true, "activity": true}}
+var gmForeign = map[string]map[string]bool{"GoAuthz": {"metadata": true, "cursors": true}, "GoFSM": {"metadata": true, "activity": true},
+	"GoLogEpoch": {"leaderEpochCache": true}}
 
 // ptrSliceField: `….<Parent>.<Field>` where the unit's declaration files declare `type <Parent> struct { <Field> []*T }`
 // (the parent is named by the selector before the field: protobuf records name a field after its message type).
@@ -1129,6 +1130,10 @@ func genGoMiniAll() []*leanFile {
 	out = append(out, &leanFile{name: "GoRevScan", raw: genGoMini("GoRevScan",
 		[]string{cl + "index.go"},
 		map[string][]string{cl + "index.go": {"newReverseIndexScanner", "newReverseIndexScannerFromEnd", "reverseIndexScanner.Scan"}},
+		clConsts)})
+	out = append(out, &leanFile{name: "GoLogEpoch", raw: genGoMini("GoLogEpoch",
+		[]string{cl + "commitlog.go"},
+		map[string][]string{cl + "commitlog.go": {"commitLog.NewLeaderEpoch", "commitLog.LastOffsetForLeaderEpoch", "commitLog.NewestOffset"}},
 		clConsts)})
 	out = append(out, &leanFile{name: "GoHWPos", raw: genGoMini("GoHWPos",
 		[]string{cl + "reader.go"},
